@@ -1745,6 +1745,62 @@ fn run_threads_case(case: &Case, ctx: &Arc<RunCtx>) -> Result<(Option<Violation>
 
 // ------------------------------------------------------------ generate ----
 
+/// Replace the generated small numbers 0..=5 in columns a and b (rows, assignments,
+/// condition constants) by `pal[x]`; column c (row tags in the thread layer) is left alone.
+fn remap_values(case: &mut Case, pal: &[i64; 6]) {
+    let m = |x: &mut i64| {
+        if (0..6).contains(x) {
+            *x = pal[*x as usize];
+        }
+    };
+    let vals = |v: &mut Vals| {
+        m(&mut v[0]);
+        m(&mut v[1]);
+    };
+    let assign = |s: &mut Assign| {
+        if let Some(x) = s.a.as_mut() {
+            m(x);
+        }
+        if let Some(x) = s.b.as_mut() {
+            m(x);
+        }
+    };
+    let cond = |c: &mut Cond| match c {
+        Cond::EqA(x) | Cond::EqB(x) | Cond::LtB(x) | Cond::LeB(x) | Cond::GtB(x) | Cond::GeB(x) => m(x),
+        Cond::AEqBLe(x, y) => {
+            m(x);
+            m(y);
+        },
+        Cond::Col(col, _, x) if *col % 3 != 2 => m(x),
+        _ => {},
+    };
+    case.init.iter_mut().for_each(vals);
+    case.init_more.iter_mut().flatten().for_each(vals);
+    for st in &mut case.steps {
+        match st {
+            Step::TxInsert { v, .. } | Step::Insert { v, .. } => vals(v),
+            Step::TxUpdate { cond: c, set, .. } | Step::Update { cond: c, set, .. } => {
+                cond(c);
+                assign(set);
+            },
+            Step::TxDelete { cond: c, .. } | Step::TxSelect { cond: c, .. } | Step::Delete { cond: c, .. } => cond(c),
+            _ => {},
+        }
+    }
+    for p in &mut case.progs {
+        for st in &mut p.stmts {
+            match st {
+                TStmt::Insert { v, .. } => vals(v),
+                TStmt::Update { cond: c, set, .. } => {
+                    cond(c);
+                    assign(set);
+                },
+                TStmt::Delete { cond: c, .. } => cond(c),
+            }
+        }
+    }
+}
+
 fn gen_vals(rng: &mut Rng) -> Vals {
     [rng.below(A_DOM as u64) as i64, rng.below(B_DOM as u64) as i64, rng.below(C_DOM as u64) as i64]
 }
@@ -1985,11 +2041,21 @@ impl Scenario for C09 {
     fn generate(&self, rng: &mut Rng, _tier: Tier, index: u64) -> Case {
         // every second case of each layer spans two or three tables
         let multi = (index / 5) % 2 == 1;
-        if index % 5 < 3 {
-            self.gen_stmt_case(rng, multi)
-        } else {
-            self.gen_thread_case(rng, multi)
+        let mut case = if index % 5 < 3 { self.gen_stmt_case(rng, multi) } else { self.gen_thread_case(rng, multi) };
+        // a quarter of the cases use other integers for the values of columns a and b:
+        // the ends of the range, negative numbers, numbers beyond 2^32 and 2^53 (index keys
+        // and their order have to cope with every i64). The map is strictly increasing, so
+        // the case keeps its shape; the model compares the numbers themselves.
+        if rng.chance(1, 4) {
+            let pal: [i64; 6] = *rng.pick(&[
+                [i64::MIN, -1, 0, 1, i64::MAX - 1, i64::MAX],
+                [-3, -2, -1, 0, 1, 2],
+                [0, 1 << 31, 1 << 32, (1 << 53) + 1, 1 << 62, i64::MAX],
+                [i64::MIN, i64::MIN + 1, -(1 << 32), -1, 9, 10],
+            ]);
+            remap_values(&mut case, &pal);
         }
+        case
     }
 
     fn run(&self, case: &Case, ctx: &Arc<RunCtx>) -> RunOut {
